@@ -319,9 +319,9 @@ def run_kani(work: Path, names, jobs, timeout_s, log_path: Path):
             "failed_checks": [{"description": c.get("description"), "status": c.get("status"), "category": c.get("category"),
                                "location": "%s:%s" % (c.get("location", {}).get("file"), c.get("location", {}).get("line")),
                                "function": c.get("function")} for c in failed][:12],
-            "props": pd.get(hid, {}),
-            "cbmc": cb.get(hid, {}).get("cbmc_stats", {}),
-            "solver": cb.get(hid, {}).get("configuration", {}).get("solver", "cadical"),
+            "props": pd.get(hid) or {},
+            "cbmc": (cb.get(hid) or {}).get("cbmc_stats") or {},
+            "solver": ((cb.get(hid) or {}).get("configuration") or {}).get("solver", "cadical"),
         }
     # harnesses that never reported (timeout / crash)
     for n in names:
